@@ -303,6 +303,8 @@ def is_stuck(sid, interval=1.5):
         return False, None
     if set(a) != set(b):
         return False, None
+    if all(i['state'] == 'Z' for i in b.values()):
+        return False, None       # only exited processes that their parent has not reaped yet: the run is over, not stuck
     for pid, i in b.items():
         j = a[pid]
         if i['utime'] + i['stime'] != j['utime'] + j['stime']:
